@@ -5,7 +5,8 @@
  *                           result and the per-fragment `modified` flags, then
  *                           perform OP a second time (the retry after a fault
  *                           has been lifted) and report again.
- *        OP = metaflush | rewrite:<i> | rewriteall | flush | sync | close
+ *        OP = metaflush | rewrite:<i> | rewriteall | flush | sync | close | include
+ *             (include: gd_include("sub1/formatnew", GD_CREAT|GD_EXCL) + a field in it + gd_metaflush)
  *   flush dump DIR          open DIR read-only and print a canonical snapshot
  *                           of the metadata (what a fresh gd_open sees).
  *   flush hold DIR          open DIR read-only, then for every line read on
@@ -68,6 +69,30 @@ static int do_op(DIRFILE *D, const char *op)
   if (!strcmp(op, "flush")) return gd_flush(D, NULL);
   if (!strcmp(op, "sync")) return gd_sync(D, NULL);
   if (!strcmp(op, "close")) return gd_close(D);
+  if (!strcmp(op, "include")) {
+    /* create a new fragment in a sub-directory, put a field in it, flush;
+     * a retry continues where the failed attempt stopped */
+    static int fi = -1, field_done = 0;
+    if (fi < 0) {
+      fi = gd_include(D, "sub1/formatnew", 0, GD_CREAT | GD_EXCL);
+      if (fi < 0) {
+        int err = gd_error(D);         /* (the next API call clears it) */
+        struct stat sb;
+        char path[4096];
+        snprintf(path, sizeof path, "%s/sub1/formatnew", gd_dirfilename(D));
+        if (err == GD_E_IO && stat(path, &sb) == 0)      /* the failed attempt had created it */
+          fi = gd_include(D, "sub1/formatnew", 0, GD_CREAT);
+        else
+          return err;
+        if (fi < 0) return gd_error(D);
+      }
+    }
+    if (!field_done) {
+      if (gd_add_spec(D, "nn CONST UINT8 77", fi)) return gd_error(D);
+      field_done = 1;
+    }
+    return gd_metaflush(D);
+  }
   fprintf(stderr, "bad op %s\n", op);
   exit(2);
 }
